@@ -125,9 +125,10 @@ size_t svalue_save_size (const svalue_t * v) {
 
     case T_NUMBER:
       {
-        int64_t res = v->u.number;
+        /* magnitude in unsigned arithmetic: -INT64_MIN is not representable as int64_t */
+        uint64_t res = v->u.number < 0 ? 0 - (uint64_t) v->u.number : (uint64_t) v->u.number;
         size_t len;
-        len = res < 0 ? (res = (-res), 1) : 0; /* +1 for sign if negative, count digits with positive value */
+        len = v->u.number < 0 ? 1 : 0; /* +1 for sign if negative, count digits with positive value */
         while (res > 9)
           {
             res /= 10;
@@ -211,16 +212,16 @@ void save_svalue (svalue_t * v, char **buf) {
 
     case T_NUMBER:
       {
-        int64_t res = v->u.number, fact;
+        uint64_t res = (uint64_t) v->u.number, fact;
         size_t len = 1; /* least significant digit */
         int neg = 0;
         register char *cp;
 
-        if (res < 0)
+        if (v->u.number < 0)
           {
             len++; /* +1 for sign if negative */
             neg = 1;
-            res = (-res);
+            res = 0 - res; /* unsigned: well defined for INT64_MIN too */
           }
         fact = res;
         while (fact > 9)
@@ -231,7 +232,7 @@ void save_svalue (svalue_t * v, char **buf) {
         *(cp = (*buf += len)) = '\0';
         do
           {
-            *--cp = res % 10 + '0';
+            *--cp = (char)(res % 10 + '0');
             res /= 10;
           }
         while (res);
